@@ -12,11 +12,12 @@ CONSTANTS Requests, Avails, Defaults, SortScope
 VARIABLES req, avail, default, remaining, supported, i, pass, result
 vars == <<req, avail, default, remaining, supported, i, pass, result>>
 
-\* available locales in declaration order: default first, then the others sorted by name
-AvailSeq(av, d) == <<d>> \o SortedSeq(av \ {d})
+\* available locales in declaration order: default first, then the others in ANY order (the order is part of the input)
+Orders(av, d) == LET rest == av \ {d} IN
+                 { <<d>> \o q : q \in { p \in [1..Cardinality(rest) -> rest] : \A x, y \in DOMAIN p : x # y => p[x] # p[y] } }
 
 Init == /\ req \in Requests /\ default \in Defaults /\ avail \in { a \in Avails : default \in a }
-        /\ remaining = AvailSeq(avail, default) /\ supported = <<>> /\ i = 1 /\ pass = "exact" /\ result = "none"
+        /\ remaining \in Orders(avail, default) /\ supported = <<>> /\ i = 1 /\ pass = "exact" /\ result = "none"
 
 \* stable sort by decreasing specificity
 RECURSIVE InsertSorted(_, _)
